@@ -71,6 +71,38 @@ var props = map[string]propCfg{
 		Stub:   []string{"io.Reader (SimReader: fragmentation, EOF style)", "initial scan-buffer capacity (verif hook, 1..64 bytes or the shipped 1024)"},
 		Assume: []string{"documents are drawn from the unambiguous well-formed space described in DESIGN.md §3 (no CR inside cells; a one-column empty last line always terminated)", "readers never return (0, nil)"},
 	},
+	"C13": {
+		ID: "C13", Level: "exploration",
+		Rule:   "cases = (generated frame incl. scramble operations, writer options Header/Columns, EmptyNull, pipe capacity, schedule policy), writer ToCSV and reader ReadCSV run as two simulated tasks over a bounded SimPipe; a case is non-trivial when the reader received the stream in more than one chunk (chunking decided by the interleaving); distinct = distinct hash of (bytes written, chunk sizes seen by the reader, EmptyNull)",
+		Phases: []phase{{Engine: "roundtrip", Test: "TestC13", QuickChecks: 60000, ThoroughChecks: 250000}},
+		Real:   append(append([]string{}, commonReal...), "encoding/csv writer inside ToCSV"),
+		Stub:   []string{"byte transport between writer and reader (SimPipe, bounded, blocking)", "caller-thread scheduler (PCT / random walk over pipe operations)"},
+		Assume: []string{"strings contain no CR (excluded by the property)", "a strict enum column with null cells is read back with EmptyNull (its null has no declared CSV form otherwise)"},
+	},
+	"C14": {
+		ID: "C14", Level: "exploration",
+		Rule:   "cases = (generated frame with names/strings over arbitrary bytes, floats finite or NaN, scramble, pipe capacity, schedule policy); ToJSON output is parsed with encoding/json (token stream, UseNumber) and fed to ReadJSON through the SimPipe; non-trivial when a name or string needs escaping or a float column is present; distinct = distinct output byte strings",
+		Phases: []phase{{Engine: "roundtrip", Test: "TestC14", QuickChecks: 60000, ThoroughChecks: 250000}},
+		Real:   append(append([]string{}, commonReal...), "encoding/json as independent parser and inside ReadJSON"),
+		Stub:   []string{"byte transport between writer and reader (SimPipe)", "caller-thread scheduler"},
+		Assume: []string{"a string with invalid UTF-8 denotes the string with U+FFFD for every invalid byte", "ReadJSON is only expected to invert frames with >=1 row, NaN-free float columns and names that stay distinct and valid after JSON decoding"},
+	},
+	"C19": {
+		ID: "C19", Level: "exploration",
+		Rule:   "cases = (generated frame >=1 row, scramble, dialect: escape rune / placeholder style / table, driver variation: ExecerContext fast path | ErrSkip | prepare-only, NumInput exact | -1, text as string | reused []byte buffer, bool native | int64+Coerce, Precision); every case executes ToSQL against SimDB (statements parsed by a strict INSERT grammar, rows stored) and ReadSQL of the stored rows and of a NULL-bearing variant; all cases that reach the driver are non-trivial; distinct = distinct (statement log, driver config, dialect)",
+		Phases: []phase{{Engine: "roundtrip", Test: "TestC19", QuickChecks: 60000, ThoroughChecks: 250000}},
+		Real:   append(append([]string{}, commonReal...), "database/sql above the driver interface (pool, Tx, Stmt, Rows, parameter conversion)"),
+		Stub:   []string{"database/sql driver and store (SimDB)"},
+		Assume: []string{"identifiers come from an alphabet that cannot collide with statement syntax (no escape rune, comma, parenthesis)", "Precision(p) is checked as |got-want| <= 0.5*10^-p for |want| <= 1e9 only"},
+	},
+	"C15": {
+		ID: "C15", Level: "fault_enumeration",
+		Rule:   "for every seeded input (CSV document+config, JSON document, frame for ToCSV/ToJSON/ToSQL, stored table for ReadSQL) the fault-free run is recorded, then EVERY fault position is executed: reader byte offsets 0..len (len = instead of EOF) x {(0,err), (k>0,err)} x {a drawn opaque kind, io.ErrUnexpectedEOF, wrapped io.EOF}; writer byte offsets 0..len-1 x {(0,err), short write} x drawn kind; driver calls (Prepare, Exec, Stmt.Exec, Query, every Rows.Next incl. the one that would report EOF) x {opaque, driver.ErrBadConn}; each under a freshly derived fragmentation plan. evaluations = fault runs; a run is non-trivial when the stub actually returned the injected error to its caller (fired); distinct = distinct (surface, input, position, shape, kind). Positions are exhaustive per input; inputs are sampled by seed.",
+		Phases: []phase{{Engine: "iofault", Test: "TestC15", QuickChecks: 500, ThoroughChecks: 1500}},
+		Real:   append(append([]string{}, commonReal...), "database/sql above the driver interface", "bufio inside encoding/csv"),
+		Stub:   []string{"io.Reader (SimReader with fault)", "io.Writer (SimWriter with fault / full disk)", "database/sql driver (SimDB with fault at call k)"},
+		Assume: []string{"a fault that database/sql absorbs itself (retry after driver.ErrBadConn) creates no obligation: decided by running a trivially correct reference client under the same fault", "an error wrapping io.EOF may be read as end of stream: only 'no silent loss' is required for it", "data delivered together with an error: only 'no error => complete result' is required (encoding/json may legitimately finish on the data)", "cancellation of the Tx context is not injected (database/sql reacts on its own goroutine; not replayable)"},
+	},
 }
 
 func main() {
@@ -832,16 +864,18 @@ func cmdSelftest(args []string) int {
 				}
 			}
 			wg.Wait()
+			phaseBad := 0
 			for seed, ds := range digests {
 				for _, d := range ds[1:] {
 					if d != ds[0] {
 						bad++
+						phaseBad++
 						fmt.Printf("NON-DETERMINISTIC engine=%s test=%s seed=%d: %q vs %q\n", ph.Engine, ph.Test, seed, ds[0], d)
 						break
 					}
 				}
 			}
-			fmt.Printf("selftest determinism: %s/%s: %d seeds x 2 runs x GOMAXPROCS{1,4,16}: %d divergent\n", ph.Engine, ph.Test, nseeds, bad)
+			fmt.Printf("selftest determinism: %s/%s: %d seeds x 2 runs x GOMAXPROCS{1,4,16}: %d divergent\n", ph.Engine, ph.Test, nseeds, phaseBad)
 		}
 		os.RemoveAll(sc.dir)
 	}
